@@ -110,6 +110,16 @@ def check(res):
                     want=want,
                 )
             )
+    # --- the options of the 'monitor' message reach every (re-)subscription of the engine's callback
+    want_opts = None
+    for e in v.evs:
+        if e.kind == "msg" and e.d["cmd"] == "monitor" and e.d["obj"] == sig:
+            want_opts = {k_: x for k_, x in e.d["kw"].items() if k_ != "name"}
+        elif e.kind == "dev" and e.d["dev"] == sig and e.d["method"] == "subscribe" and e.d.get("cb") == "RE.monitor" and want_opts is not None:
+            got_opts = dict(e.d.get("opts") or {})
+            if got_opts != want_opts:
+                out.append(V("monitor-subscribe-options-differ", f"{sig} was (re-)subscribed with {got_opts}, the 'monitor' message asked for {want_opts}", got=got_opts, want=want_opts))
+                break
     # --- subscription ledger at idle
     for c in v.calls:
         if c.end is not None and c.state == "idle":
